@@ -123,13 +123,26 @@ func (w *world) stepHeight(forceTxs int) {
 		return
 	}
 	// 3. round change: the proposal is discarded after some replicas already validated it
+	stale := map[*node]bool{}
 	if t.Chance(1, 6) {
 		for _, r := range ups {
+			validated := false
 			if t.Chance(1, 2) {
 				w.focus(r)
-				if _, err := r.ctl.ValidateProposal(pr.rc, w.proposalQC(pr), pr.evidence); err != nil {
+				res, err := r.ctl.ValidateProposal(pr.rc, w.proposalQC(pr), pr.evidence)
+				if err != nil {
 					w.honestRejected(r, pr, "validate (before round change)", err)
+				} else {
+					validated = true
+					r.ctl.Consensus.BlockResult = res
 				}
+			}
+			if validated && len(ups) > 2 && len(stale) == 0 && t.Chance(1, 3) {
+				// this replica is slow: it still sits in the old round with the old proposal's speculative state
+				// and cached result when the block of the next round reaches it through gossip
+				stale[r] = true
+				c.Fault("replica_keeps_old_round_speculation")
+				continue
 			}
 			r.ctl.ResetFSM() // what bft.RoundInterrupt does
 			r.ctl.Consensus.BlockResult = nil
@@ -139,14 +152,24 @@ func (w *world) stepHeight(forceTxs int) {
 		if t.Chance(1, 2) {
 			w.submit(w.genTx(ups[0]))
 		}
-		p = ups[t.Intn(len(ups))]
+		var fresh []*node
+		for _, r := range ups {
+			if !stale[r] {
+				fresh = append(fresh, r)
+			}
+		}
+		p = fresh[t.Intn(len(fresh))]
 		if pr = w.produce(p); pr == nil {
+			w.abandonProposal(ups)
 			return
 		}
 	}
 	c.Logf("h%d proposer=%s txs=%d rc=%d slashes=%d", h, p.name, len(pr.block.Transactions), pr.rc, len(pr.results.SlashRecipients.GetDoubleSigners()))
 	// 4. every node (the proposer too) validates the proposal as a replica
 	for _, r := range ups {
+		if stale[r] {
+			continue
+		}
 		w.focus(r)
 		res, err := r.ctl.ValidateProposal(pr.rc, w.proposalQC(pr), pr.evidence)
 		c.Check()
